@@ -887,7 +887,7 @@ impl Prop for CliRejects {
 
     fn rule(&self) -> String {
         format!(
-            "fault kinds are enumerated round-robin over generated valid files ({} kinds): truncation at EVERY byte offset (in-process through the format's reader and the auto reader; stride > 1 only above 2 KB) plus 12 offsets through the real process; empty / blank file; invalid UTF-8; a real read error (directory as input); byte flips (validity unknown: weak invariant only); JSON: required field dropped, field renamed, wrong type, prob missing, second value; both formats: probability 0 / negative, empty action list, and each library contract rule (actions differ within an infoset, chance weights differ within a chance infoset, own action forgotten, one action here several there, previous infoset differs); Gambit: three players, constant-sum violation beyond the tolerance, payoff 1e400, probabilities not summing to one, outcome without payoffs, unnamed infoset whose number is another infoset's name. Strong oracle (known-invalid input): exit status != 0, nothing on stdout, no -o file, stderr names a documented category. Weak invariant (all): never a result and a failure; exit 0 implies one complete valid result object. Non-trivial: the fault was applicable and a process ran; distinct = distinct case hashes",
+            "fault kinds are enumerated round-robin over generated valid files ({} kinds): truncation at EVERY byte offset (in-process through the format's reader and the auto reader; stride > 1 only above 2 KB) and a hard I/O error after EVERY byte offset (in-process, with EINTR and chunking), plus 12 offsets through the real process; a pre-existing -o file must stay untouched; empty / blank file; invalid UTF-8; a real read error (directory as input); byte flips (validity unknown: weak invariant only); JSON: required field dropped, field renamed, wrong type, prob missing, second value; JSON: every weight of a chance node negative; both formats: probability 0 / negative, empty action list, and each library contract rule (actions differ within an infoset, chance weights differ within a chance infoset, own action forgotten, one action here several there, previous infoset differs); Gambit: one / three players, constant-sum violation far beyond and just beyond (1.5 x) the documented tolerance, payoff 1e400, probabilities not summing to one, outcome without payoffs, unnamed infoset whose number is another infoset's name. Strong oracle (known-invalid input): exit status != 0, nothing on stdout, no -o file, stderr names a documented category. Weak invariant (all): never a result and a failure; exit 0 implies one complete valid result object. Non-trivial: the fault was applicable and a process ran; distinct = distinct case hashes",
             KINDS.len()
         )
     }
